@@ -14,7 +14,7 @@ Definition resolves (E : env) (u : value) : Prop :=
 Definition builtins_free (E : env) : Prop := forall n, is_builtin n = true -> env_lookup E n = None.
 
 Definition ok1 (W : world) (E : env) (u : value) : Prop :=
-  wf_local W u = true /\ g_raw_local u = true /\ g_std_local u = true /\ resolves E u.
+  wf_local W u = true /\ g_std_local u = true /\ resolves E u.
 
 (* ---------------------------------------------------------------- calls *)
 Lemma apply_call_lib W E n m k args kws :
@@ -46,7 +46,7 @@ Proof. induction l as [|y l IH]; cbn; [reflexivity|]. cbn in IH. rewrite IH. ref
 Lemma eval_scalar W E v :
   builtins_free E -> is_container v = false -> ok1 W E v -> eval W E (repr W v) = Some (norm W v).
 Proof.
-  intros HB Hc (Hwf & Hraw & Hstd & Hres).
+  intros HB Hc (Hwf & Hstd & Hres).
   destruct v; try discriminate Hc; try discriminate Hstd; try reflexivity.
   - (* VFloat *)
     cbn [repr norm]. destruct (fl_isfinite bits) eqn:Ef; [reflexivity|].
@@ -63,7 +63,6 @@ Proof.
     cbn [lib_call]. cbn [wf_local] in Hwf. destruct (dec_parse s); [reflexivity|discriminate].
   - (* VQName *)
     cbn [repr norm]. unfold resolves in Hres. cbn [type_of hd snd fst] in Hres.
-    cbn [g_raw_local] in Hraw. unfold raw_dq. rewrite Hraw.
     rewrite eval_ECall. cbn [eval_list eval eval_kws].
     rewrite (apply_call_lib W E _ _ LQName _ _ Hres) by reflexivity. reflexivity.
   - (* VXml *)
@@ -349,7 +348,7 @@ Proof.
       * apply IHk. intros u Hu. apply Hok. rewrite subs_VDict. right. eapply subs_pairs_in; eauto.
       * apply IHx. intros u Hu. apply Hok. rewrite subs_VDict. right. eapply subs_pairs_in; eauto.
   - (* dataclass instance *)
-    destruct (Hok (VObj c fs) (subs_self _ _)) as (Hwf & _ & _ & Hres).
+    destruct (Hok (VObj c fs) (subs_self _ _)) as (Hwf & _ & Hres).
     cbn [wf_local] in Hwf. rewrite repr_VObj, norm_VObj.
     destruct (find_data W c) as [fds|] eqn:Ef; [|discriminate Hwf].
     apply andb_true_iff in Hwf as [Hwf Hns]. apply andb_true_iff in Hwf as [Hwf Hq].
